@@ -59,14 +59,17 @@ POOL = [
 POOL_BY_ID = {p[0]: p for p in POOL}
 # 2-thread drivers: (name, call ids, cold?, granularity, max preemption bound quick, thorough)
 DRIVERS = [
-    ('D1-same-cold-key', ('n1', 'n4'), True, 'cache', 1, 2),
-    ('D2-two-cultures-cold', ('n1', 'n5'), True, 'cache', 1, 2),
+    ('D1-same-cold-key', ('n1', 'n4'), True, 'cache', 1, 1),
+    ('D2-two-cultures-cold', ('n1', 'n5'), True, 'cache', 1, 1),
     ('D3-warm-number-swapped-separators', ('n3', 'n4'), False, 'calls', 1, 1),
     ('D4-warm-percentage-and-number', ('p1', 'n1'), False, 'calls', 1, 1),
-    ('D5-warm-datetime-two-references', ('d1', 'd2'), False, 'coarse', 1, 2),
-    ('D6-warm-datetime-two-queries', ('d1', 'd4'), False, 'coarse', 1, 2),
+    ('D5-warm-datetime-two-references', ('d1', 'd2'), False, 'coarse', 1, 1),
+    ('D6-warm-datetime-two-queries', ('d1', 'd4'), False, 'coarse', 1, 1),
     ('D7-warm-datetime-options', ('d3', 'd4'), False, 'coarse', 1, 1),
     ('D8-cold-datetime-and-number', ('d5', 'n5'), True, 'coarse', 1, 1),
+    ('D9-warm-number-two-preemptions', ('n3', 'n4'), False, 'methods', 2, 2),
+    ('D10-warm-percentage-number-two-preemptions', ('p1', 'n2'), False, 'methods', 2, 2),
+    ('D11-warm-datetime-two-preemptions', ('d1', 'd4'), False, 'methods', 1, 2),
 ]
 TABLE_PATH = os.path.join(env.VERIF, '.cache', 'c02_table.json')
 
@@ -190,6 +193,8 @@ def counts_for(driver):
     """scheduling points of each thread when it runs first (bound-0 executions), measured once per worker"""
     from vmc import sched, state
     name, cids, cold, gran, _, _ = driver
+    if CFG['tier'] == 'thorough' and name.startswith(('D5', 'D6', 'D7')):
+        gran = 'calls'
     if name not in S['counts']:
         cs = []
         for first in (0, 1):
@@ -273,6 +278,8 @@ def body(ch):
         driver = DRIVERS[di]
         name, cids, cold, gran, bq, bt = driver
         bound = bt if CFG['tier'] == 'thorough' else bq
+        if CFG['tier'] == 'thorough' and name.startswith(('D5', 'D6', 'D7')):
+            gran = 'calls'          # every library call is a scheduling point (about 4,600 per date-time call)
         counts = counts_for(driver)
         plans = sched.plans_up_to(bound, counts)
         chunk = 40
